@@ -327,9 +327,29 @@ def structural_queue(repo):
             ok = True
         elif any('maxlen' in c or (c.startswith(('collections.deque(', 'deque(')) and ',' in c) for c in ctors):
             ok = False          # a bounded deque silently drops the oldest ids: those states are never released
-    return [{'id': 'deletion-queue-unbounded', 'definite': True, 'kind': 'post', 'ok': ok,
-             'label': 'the deletion queue is an unbounded FIFO (deque() / list): no queued state id is ever dropped '
-                      'before it was sent to the helper', 'detail': repr(ctors)}]
+    out = [{'id': 'deletion-queue-unbounded', 'definite': True, 'kind': 'post', 'ok': ok,
+            'label': 'the deletion queue is an unbounded FIFO (deque() / list): no queued state id is ever dropped '
+                     'before it was sent to the helper', 'detail': repr(ctors)}]
+    # the reader thread of the helper's stderr does a blocking put(): with a bounded queue it blocks for good when the
+    # helper dies mid-request after a lot of output, and the cleanup (thread.join) then never returns - the query hangs
+    sq = []
+    for n in ast.walk(tree):
+        if isinstance(n, ast.Assign):
+            for t in n.targets:
+                if isinstance(t, ast.Attribute) and t.attr == '_stderr_queue':
+                    sq.append(ast.unparse(n.value))
+    ok2 = None
+    if sq:
+        if all(c in ('queue.Queue()', 'Queue()', 'queue.SimpleQueue()', 'SimpleQueue()') for c in sq):
+            ok2 = True
+        elif any(('maxsize' in c) or (c.startswith(('queue.Queue(', 'Queue(')) and c not in ('queue.Queue()', 'Queue()')
+                                      and not c.endswith('(0)')) for c in sq):
+            ok2 = False
+    out.append({'id': 'stderr-queue-unbounded', 'definite': True, 'kind': 'post', 'ok': ok2,
+                'label': 'no query hangs on cleanup: the queue between the stderr reader thread and the parent is '
+                         'unbounded, so the reader never blocks in put() and thread.join() in the cleanup returns',
+                'detail': repr(sq)})
+    return out
 
 
 def _standin(repo, seed, tier):
